@@ -7,7 +7,7 @@ static const Info I = {
     "detached coroutine consumer / probes, then destruction; after EVERY op every push future (ready iff fewer than limit items were waiting or a consumer was waiting; blocked pushes complete in arrival order, one per pop), "
     "every pop future, size() and empty() are compared with a reference model (queue <= limit, FIFO of blocked (item, push)). Threads: 1..3 producers x 1..3 consumers on the virtual runtime; oracle = multiset delivered == pushed, "
     "no duplicates, producer order, no deadlock. Non-trivial = (history) some push blocked, (threads) >=1 context switch; distinct = hash(decoded program, executed switch trace).",
-    scen_queue::class_names, 6, scen_queue::counter_names, 3};
+    scen_queue::class_names, 6, scen_queue::counter_names, 4};
 const Info &info() { return I; }
 void run_case(Reader &r) { scen_queue::run(r, true); }
 std::string describe(Reader &r) { return scen_queue::describe(r, true); }
